@@ -49,6 +49,9 @@ func c03Scenarios(tier core.Tier) []scenario {
 			Menu: chain.Menu{Recv: true, Sync: true, Play: true, WalkSome: true, Submit: []string{"sA", "sA2", "sFrozen", "sUnbalanced", "tM", "sPadTrail", "sPadLead"}, Mine: 1, Restart: true, Blocks: []string{"x1", "x2", "y1", "y2"}}},
 		{Name: "c03.3way", Universe: "U-3way", Depth: 5 + d, Orcs: orcs,
 			Menu: chain.Menu{Recv: true, Sync: true, Play: true, WalkSome: true, Submit: []string{"tS", "tA2", "tD2", "tB2"}, Mine: 1, Blocks: []string{"a1", "a2", "d2", "b1", "b2", "dup3"}}},
+		// a peer block that spends one output twice, met with an empty and with a busy pool
+		{Name: "c03.inblock", Universe: "U-3way", Depth: 4 + d, Orcs: orcs,
+			Menu: chain.Menu{Recv: true, Sync: true, Play: true, Submit: []string{"tS", "tB2"}, Mine: 1, Restart: true, Blocks: []string{"a1", "ds2", "a2", "b1"}}},
 		{Name: "c03.fee", Universe: "U-3way-honest", Depth: 6 + d, Orcs: orcs,
 			Menu: chain.Menu{Recv: true, Sync: true, WalkSome: true, KeyEvents: true, Submit: []string{"sFee"}, Blocks: []string{"a1", "a2", "d2"}}},
 		{Name: "c03.family", Universe: "U-3way-honest", Depth: 6 + d, Orcs: orcs,
